@@ -56,8 +56,9 @@ func fieldByName(o Object, fpath []string) (i interface{}, ok bool) {
 	v := reflect.ValueOf(o)
 
 	v, ok = valueFieldByName(v, fpath)
-	if !ok {
-		return nil, ok
+	// unexported fields are not part of the object
+	if !ok || !v.CanInterface() {
+		return nil, false
 	}
 
 	return v.Interface(), ok
